@@ -22,14 +22,14 @@ RULE = (
     "(unwrap/group/identity removal) that changed the circuit."
 )
 PROBES = ["pair_refused_as_incompatible", "insert2_done", "group_changed", "unwrap_changed", "rmid_changed",
-          "replace_done", "auto_register_added", "remove_two_qubit", "group_with_measurement_on_wire", "started_from_solver_circuit"]
+          "replace_done", "auto_register_added", "remove_two_qubit", "group_with_measurement_on_wire", "started_from_solver_circuit", "insert2_edges_listed_target_first"]
 REAL = ["graphiq.circuit.circuit_dag.CircuitDAG (all edit methods, find_incompatible_edges, sequence, validate)",
         "graphiq.circuit.ops", "graphiq.circuit.register"]
 STUB = []
 ASSUMPTIONS = [
     "networkx is trusted for acyclicity/topological checks",
-    "insert_at is only called with one edge per quantum register of the operation, each on that register's wire "
-    "(the way the solvers call it); classical wires are not judged (the property speaks of quantum wires)",
+    "insert_at is only called with one edge per quantum register of the operation, each on that register's wire, in "
+    "either order (the wire is identified by the edge); classical wires are not judged (the property speaks of quantum wires)",
 ]
 
 
@@ -380,7 +380,11 @@ def run_case(case):
                             ctx.log(step, "ins", spec, epos, "refused")
                             continue
                     op = gq.make_op(spec)
-                    circ.insert_at(op, edges)
+                    give = list(edges)
+                    if len(qr) == 2 and (st[3 + 2] // 13) % 2:
+                        give.reverse()  # the wire is determined by each edge itself, not by its position in the list
+                        ctx.probe("insert2_edges_listed_target_first")
+                    circ.insert_at(op, give)
                     n = m.new_node(spec)
                     for key, p in zip(qr, epos):
                         m.wires[key].insert(p, n)
